@@ -22,6 +22,8 @@ OBLIGATIONS = {
     "hardened_edge": "a hardened child derived", "public_edge": "a child derived from an xpub", "hardened_from_xpub": "a hardened child "
     "requested from an xpub (must raise)", "index_max_nonhardened": "index 2^31-1", "stepwise": "a depth>=2 key derived step by step "
     "from intermediate keys", "int_child_no": "serialized_extended_key called with int depth/child_no",
+    "key_text_contains_other_marker": "an xprv/tprv whose Base58 text contains xpub/tpub/xprv/tprv in its body",
+    "text_lookalike_seed": "a seed made of ASCII hex digits / digits / whitespace",
     "mut_depth0_parent": "depth-0 payload with non-zero parent data", "mut_key_range": "private key 0 or >= n", "mut_offcurve": "off-curve public key",
 }
 BOUND = {"quick": "depth <= 2 (43 nodes per tree, 8 trees)", "thorough": "depth <= 3 (259 nodes per tree) + 12 depth-8 paths"}
@@ -39,6 +41,12 @@ def call(fn, *a, **kw):
 def seeds(seed):
     return [filler(seed, "c09-s16", 16), filler(seed, "c09-s32", 32), filler(seed, "c09-s64", 64),
             bytes.fromhex("000102030405060708090a0b0c0d0e0f")]
+
+
+def text_seeds():
+    """seeds whose bytes look like text (ASCII hex digits, digits, whitespace ...): only the master key / depth-1 level"""
+    from vf.runner import lookalikes
+    return [b for n in (16, 32, 64) for b in lookalikes(n)]
 
 
 def chk_node(case):
@@ -191,6 +199,10 @@ def jobs(tier, seed):
     if tier == "thorough":
         for j in range(12):
             js.append({"name": f"deep/{j}", "part": "deep", "j": j, "weight": 10})
+    for sh in range(4):
+        js.append({"name": f"text-seeds/{sh}", "part": "textseeds", "shard": [sh, 4], "weight": 6})
+    for sh in range(4):
+        js.append({"name": f"lookalike-keys/{sh}", "part": "lookalike", "shard": [sh, 4], "weight": 12})
     for b in range(4):
         for sh in range(4):
             js.append({"name": f"reject/{b}/{sh}", "part": "reject", "base": b, "shard": [sh, 4], "weight": 5})
@@ -234,6 +246,45 @@ def run_job(job):
                 acc.ob("int_child_no")
             acc.check("node", {"seedbytes": sd.hex(), "testnet": job["testnet"], "path": path}, chk_node)
             acc.sample({"seed_len": len(sd), "testnet": job["testnet"], "path": R.path_str(path)})
+    elif part == "textseeds":
+        sh, nsh = job["shard"]
+        for i, sd in enumerate(text_seeds()):
+            if i % nsh != sh or R.master(sd) is None:
+                continue
+            for path in ([], [H]):
+                acc.evaluations += 1
+                acc.nontrivial += 1
+                acc.ob("text_lookalike_seed")
+                acc.check("node", {"seedbytes": sd.hex(), "testnet": bool(i % 2), "path": path}, chk_node)
+            acc.sample({"text_seed": sd.decode("latin1")})
+    elif part == "lookalike":
+        # extended private keys whose Base58 text happens to CONTAIN the marker of another key kind ("xpub", "tpub", "xprv",
+        # "tprv" somewhere after the first four characters): found by searching seeds with the reference (no EC arithmetic is
+        # needed to serialise a root xprv), then checked like any other node.  ~1 key in 25 000 qualifies.
+        import hashlib, hmac
+        sh, nsh = job["shard"]
+        found = 0
+        budget = 60000 if job["tier"] == "quick" else 400000
+        for i in range(sh, budget * nsh, nsh):
+            sd = hashlib.sha256(b"c09-lookalike-%d-%d" % (seed, i)).digest()[:16]
+            I = hmac.new(b"Bitcoin seed", sd, hashlib.sha512).digest()
+            k = int.from_bytes(I[:32], "big")
+            if not 0 < k < R.S.n:
+                continue
+            for tn in (False, True):
+                x = R.ser("prv", tn, 0, bytes(4), 0, I[32:], k)
+                body = x[4:]
+                if any(m in body for m in (b"xpub", b"tpub", b"xprv", b"tprv")):
+                    found += 1
+                    acc.evaluations += 1
+                    acc.nontrivial += 1
+                    acc.ob("key_text_contains_other_marker")
+                    for path in ([], [0], [H]):
+                        acc.check("node", {"seedbytes": sd.hex(), "testnet": tn, "path": path}, chk_node)
+                    acc.sample({"seed": sd.hex(), "testnet": tn, "xprv": x.decode()})
+            if found >= (1 if job["tier"] == "quick" else 3):
+                break
+        acc.extra["lookalike_keys_found"] = found
     elif part == "deep":
         j = job["j"]
         sd = seeds(seed)[j % 4]
